@@ -1,6 +1,1014 @@
-//! C18: not implemented yet.
-use crate::util::Args;
-pub fn main(_a: &Args) {
-    eprintln!("c18: not implemented");
-    std::process::exit(2);
+//! C18: designspace documents. Generates documents, saves them with `DesignSpaceDocument::save`,
+//! keeps every written file for the driver's independent reader (Python/expat), loads the file
+//! again and reports what came back. Documents travel as JSON (floats as their `Display` text,
+//! dates in plist XML form, data as hex), the driver turns them into Gallina terms.
+//!
+//! Modes:  (default) generate `cases.jsonl` + `f<i>.xml`;  `--replay F` the same for the
+//! documents listed in the JSON-lines file F;  `--load-dir D` load every `p<i>.xml` of D and
+//! report the outcome (decoder side of the correspondence, files written by the driver).
+use crate::util::*;
+use norad::designspace::*;
+use norad::Name;
+use plist::{Dictionary, Value};
+use serde_json::{json, Value as J};
+use std::path::Path;
+use std::time::{Duration, SystemTime};
+
+// ------------------------------------------------------------------------------------------
+// documents <-> JSON
+// ------------------------------------------------------------------------------------------
+fn f32s(x: f32) -> String {
+    if x.is_nan() {
+        "NaN".into()
+    } else {
+        x.to_string()
+    }
+}
+fn f64s(x: f64) -> String {
+    if x.is_nan() {
+        "NaN".into()
+    } else {
+        x.to_string()
+    }
+}
+fn jf(x: f32) -> J {
+    J::String(f32s(x))
+}
+fn jof(x: &Option<f32>) -> J {
+    match x {
+        None => J::Null,
+        Some(v) => jf(*v),
+    }
+}
+fn jos(x: &Option<String>) -> J {
+    match x {
+        None => J::Null,
+        Some(v) => J::String(v.clone()),
+    }
+}
+fn hex(b: &[u8]) -> String {
+    b.iter().map(|x| format!("{:02x}", x)).collect()
+}
+fn unhex(s: &str) -> Vec<u8> {
+    (0..s.len() / 2).map(|i| u8::from_str_radix(&s[2 * i..2 * i + 2], 16).unwrap()).collect()
+}
+
+fn pv_to_json(v: &Value) -> J {
+    match v {
+        Value::String(s) => json!(["s", s]),
+        Value::Integer(i) => json!(["i", i.to_string()]),
+        Value::Real(r) => json!(["r", f64s(*r)]),
+        Value::Boolean(b) => json!(["b", b]),
+        Value::Data(d) => json!(["d", hex(d)]),
+        Value::Date(t) => json!(["t", t.to_xml_format()]),
+        Value::Array(a) => json!(["a", a.iter().map(pv_to_json).collect::<Vec<_>>()]),
+        Value::Dictionary(d) => json!(["m", dict_to_json(d)]),
+        other => json!(["?", format!("{:?}", other)]),
+    }
+}
+fn dict_to_json(d: &Dictionary) -> J {
+    J::Array(d.iter().map(|(k, v)| json!([k, pv_to_json(v)])).collect())
+}
+fn dims_to_json(l: &[Dimension]) -> J {
+    J::Array(
+        l.iter()
+            .map(|d| json!({"name": d.name, "uservalue": jof(&d.uservalue), "xvalue": jof(&d.xvalue), "yvalue": jof(&d.yvalue)}))
+            .collect(),
+    )
+}
+pub fn doc_to_json(d: &DesignSpaceDocument) -> J {
+    let axes: Vec<J> = d
+        .axes
+        .iter()
+        .map(|a| {
+            json!({
+                "name": a.name, "tag": a.tag, "default": jf(a.default), "hidden": a.hidden,
+                "minimum": jof(&a.minimum), "maximum": jof(&a.maximum),
+                "values": match &a.values { None => J::Null, Some(v) => J::Array(v.iter().map(|x| jf(*x)).collect()) },
+                "map": match &a.map { None => J::Null, Some(v) => J::Array(v.iter().map(|m| json!([jf(m.input), jf(m.output)])).collect()) },
+            })
+        })
+        .collect();
+    let rules: Vec<J> = d
+        .rules
+        .rules
+        .iter()
+        .map(|r| {
+            json!({
+                "name": jos(&r.name),
+                "condsets": r.condition_sets.iter().map(|cs| J::Array(cs.conditions.iter().map(|c|
+                    json!({"name": c.name, "minimum": jof(&c.minimum), "maximum": jof(&c.maximum)})).collect())).collect::<Vec<_>>(),
+                "subs": r.substitutions.iter().map(|s| json!([s.name.as_str(), s.with.as_str()])).collect::<Vec<_>>(),
+            })
+        })
+        .collect();
+    let sources: Vec<J> = d
+        .sources
+        .iter()
+        .map(|s| {
+            json!({"familyname": jos(&s.familyname), "stylename": jos(&s.stylename), "name": jos(&s.name),
+                   "filename": s.filename, "layer": jos(&s.layer), "location": dims_to_json(&s.location)})
+        })
+        .collect();
+    let instances: Vec<J> = d
+        .instances
+        .iter()
+        .map(|s| {
+            json!({"familyname": jos(&s.familyname), "stylename": jos(&s.stylename), "name": jos(&s.name),
+                   "filename": jos(&s.filename), "postscriptfontname": jos(&s.postscriptfontname),
+                   "stylemapfamilyname": jos(&s.stylemapfamilyname), "stylemapstylename": jos(&s.stylemapstylename),
+                   "location": dims_to_json(&s.location), "lib": dict_to_json(&s.lib)})
+        })
+        .collect();
+    json!({
+        "format": jf(d.format), "axes": axes,
+        "processing": match d.rules.processing { RuleProcessing::First => "first", RuleProcessing::Last => "last" },
+        "rules": rules, "sources": sources, "instances": instances, "lib": dict_to_json(&d.lib),
+    })
+}
+
+fn pf(j: &J) -> f32 {
+    j.as_str().unwrap().parse().unwrap()
+}
+fn pof(j: &J) -> Option<f32> {
+    if j.is_null() {
+        None
+    } else {
+        Some(pf(j))
+    }
+}
+fn pos(j: &J) -> Option<String> {
+    j.as_str().map(|s| s.to_string())
+}
+fn pv_from_json(j: &J) -> Value {
+    let t = j[0].as_str().unwrap();
+    let v = &j[1];
+    match t {
+        "s" => Value::String(v.as_str().unwrap().into()),
+        "i" => {
+            let s = v.as_str().unwrap();
+            match s.parse::<i64>() {
+                Ok(x) => Value::Integer(x.into()),
+                Err(_) => Value::Integer(s.parse::<u64>().unwrap().into()),
+            }
+        }
+        "r" => Value::Real(v.as_str().unwrap().parse().unwrap()),
+        "b" => Value::Boolean(v.as_bool().unwrap()),
+        "d" => Value::Data(unhex(v.as_str().unwrap())),
+        "t" => Value::Date(plist::Date::from_xml_format(v.as_str().unwrap()).unwrap()),
+        "a" => Value::Array(v.as_array().unwrap().iter().map(pv_from_json).collect()),
+        "m" => Value::Dictionary(dict_from_json(v)),
+        _ => panic!("bad plist tag in replay file"),
+    }
+}
+fn dict_from_json(j: &J) -> Dictionary {
+    let mut d = Dictionary::new();
+    for kv in j.as_array().unwrap() {
+        d.insert(kv[0].as_str().unwrap().into(), pv_from_json(&kv[1]));
+    }
+    d
+}
+fn dims_from_json(j: &J) -> Vec<Dimension> {
+    j.as_array()
+        .unwrap()
+        .iter()
+        .map(|d| Dimension {
+            name: d["name"].as_str().unwrap().into(),
+            uservalue: pof(&d["uservalue"]),
+            xvalue: pof(&d["xvalue"]),
+            yvalue: pof(&d["yvalue"]),
+        })
+        .collect()
+}
+pub fn doc_from_json(j: &J) -> DesignSpaceDocument {
+    let mut d = DesignSpaceDocument::default();
+    d.format = pf(&j["format"]);
+    for a in j["axes"].as_array().unwrap() {
+        d.axes.push(Axis {
+            name: a["name"].as_str().unwrap().into(),
+            tag: a["tag"].as_str().unwrap().into(),
+            default: pf(&a["default"]),
+            hidden: a["hidden"].as_bool().unwrap(),
+            minimum: pof(&a["minimum"]),
+            maximum: pof(&a["maximum"]),
+            values: a["values"].as_array().map(|v| v.iter().map(pf).collect()),
+            map: a["map"].as_array().map(|v| v.iter().map(|m| AxisMapping { input: pf(&m[0]), output: pf(&m[1]) }).collect()),
+        });
+    }
+    d.rules.processing = if j["processing"] == "last" { RuleProcessing::Last } else { RuleProcessing::First };
+    for r in j["rules"].as_array().unwrap() {
+        d.rules.rules.push(Rule {
+            name: pos(&r["name"]),
+            condition_sets: r["condsets"]
+                .as_array()
+                .unwrap()
+                .iter()
+                .map(|cs| ConditionSet {
+                    conditions: cs
+                        .as_array()
+                        .unwrap()
+                        .iter()
+                        .map(|c| Condition { name: c["name"].as_str().unwrap().into(), minimum: pof(&c["minimum"]), maximum: pof(&c["maximum"]) })
+                        .collect(),
+                })
+                .collect(),
+            substitutions: r["subs"]
+                .as_array()
+                .unwrap()
+                .iter()
+                .map(|s| Substitution { name: Name::new(s[0].as_str().unwrap()).unwrap(), with: Name::new(s[1].as_str().unwrap()).unwrap() })
+                .collect(),
+        });
+    }
+    for s in j["sources"].as_array().unwrap() {
+        d.sources.push(Source {
+            familyname: pos(&s["familyname"]),
+            stylename: pos(&s["stylename"]),
+            name: pos(&s["name"]),
+            filename: s["filename"].as_str().unwrap().into(),
+            layer: pos(&s["layer"]),
+            location: dims_from_json(&s["location"]),
+        });
+    }
+    for s in j["instances"].as_array().unwrap() {
+        d.instances.push(Instance {
+            familyname: pos(&s["familyname"]),
+            stylename: pos(&s["stylename"]),
+            name: pos(&s["name"]),
+            filename: pos(&s["filename"]),
+            postscriptfontname: pos(&s["postscriptfontname"]),
+            stylemapfamilyname: pos(&s["stylemapfamilyname"]),
+            stylemapstylename: pos(&s["stylemapstylename"]),
+            location: dims_from_json(&s["location"]),
+            lib: dict_from_json(&s["lib"]),
+        });
+    }
+    d.lib = dict_from_json(&j["lib"]);
+    d
+}
+
+// ------------------------------------------------------------------------------------------
+// predicates on documents (the harness's own copies; compared with Coq's on every case)
+// ------------------------------------------------------------------------------------------
+fn is_xml_ws(c: char) -> bool {
+    c == ' ' || c == '\t' || c == '\n' || c == '\r'
+}
+fn edge_ws(s: &str) -> bool {
+    s.chars().next().map_or(false, is_xml_ws) || s.chars().last().map_or(false, is_xml_ws)
+}
+fn forbidden(s: &str) -> bool {
+    s.chars().any(|c| ((c as u32) < 0x20 && c != '\t' && c != '\n' && c != '\r') || c == '\u{fffe}' || c == '\u{ffff}')
+}
+fn pv_any(v: &Value, f: &dyn Fn(&str) -> bool) -> bool {
+    match v {
+        Value::String(s) => f(s),
+        Value::Array(a) => a.iter().any(|x| pv_any(x, f)),
+        Value::Dictionary(d) => dict_any(d, f),
+        _ => false,
+    }
+}
+fn dict_any(d: &Dictionary, f: &dyn Fn(&str) -> bool) -> bool {
+    d.iter().any(|(k, v)| f(k) || pv_any(v, f))
+}
+fn libs_any(d: &DesignSpaceDocument, f: &dyn Fn(&str) -> bool) -> bool {
+    dict_any(&d.lib, f) || d.instances.iter().any(|i| dict_any(&i.lib, f))
+}
+/// every string that is written into an attribute
+fn attr_strings(d: &DesignSpaceDocument) -> Vec<&str> {
+    let mut v: Vec<&str> = vec![];
+    fn o<'a>(v: &mut Vec<&'a str>, x: &'a Option<String>) {
+        if let Some(s) = x {
+            v.push(s)
+        }
+    }
+    for a in &d.axes {
+        v.push(&a.name);
+        v.push(&a.tag);
+    }
+    for r in &d.rules.rules {
+        o(&mut v, &r.name);
+        for cs in &r.condition_sets {
+            for c in &cs.conditions {
+                v.push(&c.name)
+            }
+        }
+        for s in &r.substitutions {
+            v.push(s.name.as_str());
+            v.push(s.with.as_str());
+        }
+    }
+    for s in &d.sources {
+        o(&mut v, &s.familyname);
+        o(&mut v, &s.stylename);
+        o(&mut v, &s.name);
+        v.push(&s.filename);
+        o(&mut v, &s.layer);
+        for l in &s.location {
+            v.push(&l.name)
+        }
+    }
+    for s in &d.instances {
+        o(&mut v, &s.familyname);
+        o(&mut v, &s.stylename);
+        o(&mut v, &s.name);
+        o(&mut v, &s.filename);
+        o(&mut v, &s.postscriptfontname);
+        o(&mut v, &s.stylemapfamilyname);
+        o(&mut v, &s.stylemapstylename);
+        for l in &s.location {
+            v.push(&l.name)
+        }
+    }
+    v
+}
+/// the property's well-formedness + the two representational facts (DESIGN C18)
+fn wf(d: &DesignSpaceDocument) -> bool {
+    !d.axes.is_empty()
+        && d.axes.iter().all(|a| a.map.as_ref().map_or(true, |m| !m.is_empty()))
+        && d.rules.rules.iter().all(|r| !r.condition_sets.is_empty() && !r.substitutions.is_empty())
+        && !(d.rules.rules.is_empty() && d.rules.processing == RuleProcessing::Last)
+        && !d.sources.is_empty()
+        && d.sources.iter().all(|s| !s.location.is_empty())
+        && d.instances.iter().all(|s| !s.location.is_empty())
+}
+/// known class (quick-xml trims element text): a lib string or key starts/ends with XML white space
+fn cls_trim(d: &DesignSpaceDocument) -> bool {
+    libs_any(d, &edge_ws)
+}
+/// the written file is not read back unchanged by a conforming XML reader: forbidden character
+/// anywhere; tab/LF/CR in an attribute value; CR in a lib string or key
+fn cls_reader(d: &DesignSpaceDocument) -> (bool, bool) {
+    let forb = attr_strings(d).iter().any(|s| forbidden(s)) || libs_any(d, &forbidden);
+    let norm = attr_strings(d).iter().any(|s| s.contains(['\t', '\n', '\r'])) || libs_any(d, &|s: &str| s.contains('\r'));
+    (forb, norm)
+}
+fn f32_has_nan(d: &DesignSpaceDocument) -> bool {
+    fn pv_nan(v: &Value) -> bool {
+        match v {
+            Value::Real(r) => r.is_nan(),
+            Value::Array(a) => a.iter().any(pv_nan),
+            Value::Dictionary(d) => d.values().any(pv_nan),
+            _ => false,
+        }
+    }
+    let on = |x: &Option<f32>| x.map_or(false, |v| v.is_nan());
+    let dim = |l: &Vec<Dimension>| l.iter().any(|d| on(&d.uservalue) || on(&d.xvalue) || on(&d.yvalue));
+    d.format.is_nan()
+        || d.axes.iter().any(|a| {
+            a.default.is_nan()
+                || on(&a.minimum)
+                || on(&a.maximum)
+                || a.values.as_ref().map_or(false, |v| v.iter().any(|x| x.is_nan()))
+                || a.map.as_ref().map_or(false, |v| v.iter().any(|m| m.input.is_nan() || m.output.is_nan()))
+        })
+        || d.rules.rules.iter().any(|r| r.condition_sets.iter().any(|cs| cs.conditions.iter().any(|c| on(&c.minimum) || on(&c.maximum))))
+        || d.sources.iter().any(|s| dim(&s.location))
+        || d.instances.iter().any(|s| dim(&s.location) || s.lib.values().any(pv_nan))
+        || d.lib.values().any(pv_nan)
+}
+
+// ------------------------------------------------------------------------------------------
+// generators
+// ------------------------------------------------------------------------------------------
+const CLEAN_ATTR: &[&str] = &[
+    "Weight", "wght", "x", "", "a b", " lead", "trail ", "  ", "a<b>&\"'c", "é😀", "Test Family Regular",
+    "I.narrow", "fold_I_serifs", "master.ufo", "instances/X-Bold.ufo", "\u{a0}nb\u{a0}", "]]>", "&amp;", "a=\"b\"",
+    "日本語", "x\u{7f}y", "q\u{85}r", "\u{2028}", "&#10;", "<!--c-->", "1 2  3",
+];
+const ATTR_NORM: &[&str] = &["a\tb", "a\nb", "a\rb", "a\r\nb", "\t", "\n lead", "x\r"];
+const FORB: &[&str] = &["c\u{1}d", "z\u{0}", "n\u{fffe}", "\u{ffff}m", "v\u{b}w", "\u{1f}"];
+const CLEAN_LIB: &[&str] = &[
+    "Absolutely!", "x", "", "a b", "a<b>&\"'c", "é😀", "line1\nline2", "tab\there", "in  ner", "\u{a0}nb\u{a0}", "]]>",
+    "&lt;", "536", "true", "<string>x</string>", "日本語", "x\u{7f}y", "a\n\n\tb",
+];
+const LIB_TRIM: &[&str] = &[" lead", "trail ", "  ", "\n", "\tx", " ", " a b ", "x\n"];
+const LIB_CR: &[&str] = &["a\rb", "a\r\nb", "\r\n", "x\r"];
+const KEYS: &[&str] = &["k1", "com.github.googlei18n.ufo2ft.featureWriters", "public.skipExportGlyphs", "ключ", "", "a&b<", "class", "options", "k 2", "x\u{a0}"];
+const KEYS_TRIM: &[&str] = &[" k1", "k1 ", "\tk", "k\n", " "];
+const NAMES: &[&str] = &["a", "I", "I.narrow", "S.closed", "é", "a b", " x", "dollar.alt", "<&>", "\u{a0}"];
+const F32S: &[f32] = &[
+    0.0, -0.0, 1.0, -1.0, 400.0, 700.0, 1000.0, 0.5, -2.5, 0.1, 4.1, 5.0, 1e10, 3.4028235e38, -3.4028235e38, 1.1754944e-38,
+    1e-45, 16777216.0, 0.33333334, 123456.79, 1e-7, 9.999999e-5, 8388608.5, f32::INFINITY, f32::NEG_INFINITY,
+];
+const F64S: &[f64] = &[0.0, -0.0, 1.0, 1.5, -2.5, 0.1, 1e300, 5e-324, 1.7976931348623157e308, 2.2250738585072014e-308, 9007199254740993.0, 1e21, 1e-7, 123456789.123456789, f64::INFINITY, f64::NEG_INFINITY];
+
+/// "Magic" values: constants a future edit may special-case ("skip when equal to the default").
+/// The driver harvests every short printable string literal and every numeric literal of
+/// norad's source at run time (`--magic FILE`); the fixed lists below are always added.
+const FIXED_MAGIC_S: &[&str] = &[
+    "public.default", "public.background", "glyphs", "glyphs.", "public.objectLibs", "public.kern1.", "public.kern2.",
+    "com.", "foreground", "background", "", "0", "1", "-1", "true", "false", "yes", "no", "first", "last", "none", "None",
+    "null", "nan", "NaN", "inf", "-inf", "regular", "italic", "bold", "bold italic", "Regular", "Bold", "default",
+    "wght", "wdth", "opsz", "ital", "slnt", "Weight", "Width", "weight", "width", "lib", "dict", "key", "string", "name",
+    "location", "dimension", "xvalue", "uservalue", ".notdef", "space", "a", "A", "x", "ufo", ".ufo", "master", "copy",
+    "4", "4.0", "4.1", "5", "5.0", "400", "1000",
+];
+const FIXED_MAGIC_N: &[f32] = &[
+    0.0, 1.0, -1.0, 2.0, 3.0, 4.0, 4.1, 5.0, 5.1, 10.0, 50.0, 100.0, 200.0, 300.0, 400.0, 500.0, 600.0, 700.0, 800.0,
+    900.0, 1000.0, 2048.0, 0.5, 0.25, 0.1, 360.0, 255.0, 256.0, 65535.0, 65536.0, 1e-6, 1e6,
+];
+#[derive(Default)]
+struct Magic {
+    s: Vec<String>,
+    n: Vec<f32>,
+}
+fn legal_magic(s: &str) -> bool {
+    // stay outside the reader classes: no control characters, tab, LF, CR, non-characters
+    s.len() <= 60 && !forbidden(s) && !s.contains(['\t', '\n', '\r'])
+}
+impl Magic {
+    fn load(path: Option<&String>) -> Magic {
+        let mut m = Magic::default();
+        for x in FIXED_MAGIC_S {
+            m.s.push(x.to_string());
+        }
+        m.n.extend_from_slice(FIXED_MAGIC_N);
+        if let Some(p) = path {
+            if let Ok(text) = std::fs::read_to_string(p) {
+                if let Ok(j) = serde_json::from_str::<J>(&text) {
+                    for x in j["strings"].as_array().into_iter().flatten() {
+                        if let Some(t) = x.as_str() {
+                            if legal_magic(t) && !m.s.iter().any(|y| y == t) {
+                                m.s.push(t.to_string());
+                            }
+                        }
+                    }
+                    for x in j["numbers"].as_array().into_iter().flatten() {
+                        if let Some(t) = x.as_str().and_then(|t| t.parse::<f32>().ok()) {
+                            if t.is_finite() && !m.n.iter().any(|y| y.to_bits() == t.to_bits()) {
+                                m.n.push(t);
+                            }
+                        }
+                    }
+                }
+            }
+        }
+        let neg: Vec<f32> = m.n.iter().filter(|x| **x != 0.0).map(|x| -*x).collect();
+        for x in neg {
+            if !m.n.iter().any(|y| y.to_bits() == x.to_bits()) {
+                m.n.push(x);
+            }
+        }
+        m
+    }
+}
+
+/// one document in which every string-valued field holds `m` (every optional one `Some(m)`) and
+/// one in which every number holds `x`: a special case keyed on one field and one constant shows
+fn sweep_doc(m: &str, x: f32) -> DesignSpaceDocument {
+    let s = || m.to_string();
+    let o = || Some(m.to_string());
+    let nm = || Name::new(m).unwrap_or_else(|_| Name::new("a").unwrap());
+    let dim = || Dimension { name: s(), uservalue: Some(x), xvalue: Some(x), yvalue: Some(x) };
+    let mut d = DesignSpaceDocument::default();
+    d.format = x;
+    d.axes.push(Axis { name: s(), tag: s(), default: x, hidden: false, minimum: Some(x), maximum: Some(x), values: None,
+                       map: Some(vec![AxisMapping { input: x, output: x }]) });
+    d.axes.push(Axis { name: s(), tag: s(), default: x, hidden: true, minimum: None, maximum: None, values: Some(vec![x, x]), map: None });
+    d.rules.processing = RuleProcessing::Last;
+    d.rules.rules.push(Rule {
+        name: o(),
+        condition_sets: vec![ConditionSet { conditions: vec![Condition { name: s(), minimum: Some(x), maximum: Some(x) }] }],
+        substitutions: vec![Substitution { name: nm(), with: nm() }],
+    });
+    d.sources.push(Source { familyname: o(), stylename: o(), name: o(), filename: s(), layer: o(), location: vec![dim()] });
+    let mut lib = Dictionary::new();
+    if !edge_ws(m) {
+        lib.insert(s(), Value::String(s()));
+        lib.insert("k".into(), Value::Array(vec![Value::String(s())]));
+    }
+    lib.insert("r".into(), Value::Real(x as f64));
+    if x.fract() == 0.0 && x.abs() < 1e15 {
+        lib.insert("i".into(), Value::Integer((x as i64).into()));
+    }
+    d.instances.push(Instance { familyname: o(), stylename: o(), name: o(), filename: o(), postscriptfontname: o(),
+                                stylemapfamilyname: o(), stylemapstylename: o(), location: vec![dim()], lib: lib.clone() });
+    d.lib = lib;
+    d
+}
+
+struct G {
+    magic: std::rc::Rc<Magic>,
+    rng: Rng,
+    /// bit 1: lib strings/keys with leading/trailing white space; bit 2: tab/LF/CR in attribute
+    /// strings and CR in lib strings; bit 4: characters XML cannot express
+    wild: u8,
+    nan: bool,
+}
+impl G {
+    fn attr_s(&mut self) -> String {
+        if self.rng.chance(1, 7) {
+            let m = self.magic.clone();
+            return self.rng.pick(&m.s).clone();
+        }
+        if self.wild & 2 != 0 && self.rng.chance(1, 8) {
+            self.rng.pick(ATTR_NORM).to_string()
+        } else if self.wild & 4 != 0 && self.rng.chance(1, 10) {
+            self.rng.pick(FORB).to_string()
+        } else if self.rng.chance(1, 8) {
+            self.rand_s(false)
+        } else {
+            self.rng.pick(CLEAN_ATTR).to_string()
+        }
+    }
+    fn lib_s(&mut self) -> String {
+        if self.rng.chance(1, 7) {
+            let m = self.magic.clone();
+            let t = self.rng.pick(&m.s).clone();
+            if self.wild & 1 != 0 || !edge_ws(&t) {
+                return t;
+            }
+        }
+        if self.wild & 1 != 0 && self.rng.chance(1, 4) {
+            self.rng.pick(LIB_TRIM).to_string()
+        } else if self.wild & 2 != 0 && self.rng.chance(1, 5) {
+            self.rng.pick(LIB_CR).to_string()
+        } else if self.wild & 4 != 0 && self.rng.chance(1, 8) {
+            self.rng.pick(FORB).to_string()
+        } else if self.rng.chance(1, 8) {
+            self.rand_s(true)
+        } else {
+            self.rng.pick(CLEAN_LIB).to_string()
+        }
+    }
+    /// random short string over a small alphabet with mark-up characters; never starts or ends
+    /// with XML white space and never contains tab/LF/CR when `inner_ws` is false
+    fn rand_s(&mut self, inner_ws: bool) -> String {
+        const A: &[char] = &['a', 'Z', '0', '<', '>', '&', '"', '\'', ';', '#', 'x', '=', '/', 'é', '€', '😀', '.', '-', '_', ']'];
+        let n = self.rng.range(1, 8) as usize;
+        let mut s = String::new();
+        for i in 0..n {
+            if i > 0 && i + 1 < n && self.rng.chance(1, 5) {
+                s.push(if inner_ws && self.rng.chance(1, 2) { *self.rng.pick(&['\n', '\t']) } else { ' ' });
+            } else {
+                s.push(*self.rng.pick(A));
+            }
+        }
+        s
+    }
+    fn opt_s(&mut self) -> Option<String> {
+        if self.rng.chance(1, 2) {
+            Some(self.attr_s())
+        } else {
+            None
+        }
+    }
+    fn f32v(&mut self) -> f32 {
+        if self.rng.chance(1, 6) {
+            let m = self.magic.clone();
+            return *self.rng.pick(&m.n);
+        }
+        let r = self.rng.below(100);
+        if r < 60 {
+            *self.rng.pick(F32S)
+        } else if r < 75 {
+            self.rng.range(-2000, 2000) as f32 / *self.rng.pick(&[1.0f32, 2.0, 4.0, 10.0, 100.0, 3.0])
+        } else if r < 77 && self.nan {
+            f32::from_bits(0x7fc0_0000 | (self.rng.next() as u32 & 0x8000_ffff))
+        } else {
+            let x = f32::from_bits(self.rng.next() as u32);
+            if x.is_nan() && !self.nan {
+                1.25
+            } else {
+                x
+            }
+        }
+    }
+    fn opt_f(&mut self) -> Option<f32> {
+        if self.rng.chance(1, 2) {
+            Some(self.f32v())
+        } else {
+            None
+        }
+    }
+    fn f64v(&mut self) -> f64 {
+        if self.rng.chance(1, 6) {
+            let m = self.magic.clone();
+            return *self.rng.pick(&m.n) as f64;
+        }
+        let r = self.rng.below(100);
+        if r < 60 {
+            *self.rng.pick(F64S)
+        } else if r < 62 && self.nan {
+            f64::NAN
+        } else {
+            let x = f64::from_bits(self.rng.next());
+            if x.is_nan() && !self.nan {
+                2.75
+            } else {
+                x
+            }
+        }
+    }
+    fn date(&mut self) -> plist::Date {
+        // years 0000 ..= 9999 (what the plist XML format can express)
+        let secs = self.rng.range(-62_167_219_199, 253_402_300_799);
+        let nanos = match self.rng.below(10) {
+            0..=5 => 0u32,
+            6 => 500_000_000,
+            7 => 1,
+            8 => 999_999_999,
+            _ => self.rng.below(1_000_000_000) as u32,
+        };
+        let secs = if self.rng.chance(1, 3) { self.rng.range(-100_000, 2_000_000_000) } else { secs };
+        let t = if secs >= 0 {
+            SystemTime::UNIX_EPOCH + Duration::new(secs as u64, nanos)
+        } else {
+            // subtracting the nanoseconds moves at most one second further back (still year 0000)
+            SystemTime::UNIX_EPOCH - Duration::new((-secs) as u64, nanos)
+        };
+        t.into()
+    }
+    fn pv(&mut self, depth: u32) -> Value {
+        let r = self.rng.below(if depth >= 3 { 80 } else { 100 });
+        match r {
+            0..=19 => Value::String(self.lib_s()),
+            20..=29 => Value::Integer(match self.rng.below(8) {
+                0 => i64::MIN.into(),
+                1 => u64::MAX.into(),
+                2 => (i64::MAX as u64 + 1).into(),
+                3 => 0i64.into(),
+                4 => i64::MAX.into(),
+                5 => (self.rng.next() as i64).into(),
+                6 => {
+                    let m = self.magic.clone();
+                    (*self.rng.pick(&m.n) as i64).into()
+                }
+                _ => self.rng.range(-1000, 1000).into(),
+            }),
+            30..=39 => Value::Real(self.f64v()),
+            40..=49 => Value::Boolean(self.rng.chance(1, 2)),
+            50..=64 => {
+                let n = match self.rng.below(6) {
+                    0 => 0,
+                    1 => 1,
+                    2 => 2,
+                    3 => 3,
+                    4 => self.rng.range(4, 60),
+                    _ => self.rng.range(1, 8),
+                } as usize;
+                Value::Data((0..n).map(|_| self.rng.next() as u8).collect())
+            }
+            65..=79 => Value::Date(self.date()),
+            80..=89 => {
+                let n = self.rng.below(4);
+                Value::Array((0..n).map(|_| self.pv(depth + 1)).collect())
+            }
+            _ => Value::Dictionary(self.dict(depth + 1, 3)),
+        }
+    }
+    fn dict(&mut self, depth: u32, max: u64) -> Dictionary {
+        let mut d = Dictionary::new();
+        let n = self.rng.below(max + 1);
+        for _ in 0..n {
+            let k = if self.wild & 1 != 0 && self.rng.chance(1, 5) {
+                self.rng.pick(KEYS_TRIM).to_string()
+            } else if self.rng.chance(1, 6) {
+                let m = self.magic.clone();
+                let t = self.rng.pick(&m.s).clone();
+                if edge_ws(&t) { "k1".to_string() } else { t }
+            } else {
+                self.rng.pick(KEYS).to_string()
+            };
+            let v = self.pv(depth);
+            d.insert(k, v);
+        }
+        d
+    }
+    fn dims(&mut self, allow_empty: bool) -> Vec<Dimension> {
+        let n = if allow_empty && self.rng.chance(1, 2) { 0 } else { self.rng.range(1, 3) };
+        (0..n).map(|_| Dimension { name: self.attr_s(), uservalue: self.opt_f(), xvalue: self.opt_f(), yvalue: self.opt_f() }).collect()
+    }
+    fn name(&mut self) -> Name {
+        if self.rng.chance(1, 5) {
+            let m = self.magic.clone();
+            let t: &String = self.rng.pick(&m.s[..]);
+            if let Ok(n) = Name::new(t.as_str()) {
+                return n;
+            }
+        }
+        let s: &str = *self.rng.pick(NAMES);
+        Name::new(s).unwrap()
+    }
+    /// `bad`: bit set of injected ill-formedness (0 = well-formed)
+    fn doc(&mut self, bad: u32) -> DesignSpaceDocument {
+        let mut d = DesignSpaceDocument::default();
+        d.format = if self.rng.chance(3, 4) { *self.rng.pick(&[4.0f32, 4.1, 5.0, 5.1]) } else { self.f32v() };
+        let naxes = if bad & 1 != 0 { 0 } else { self.rng.range(1, 3) };
+        for _ in 0..naxes {
+            let discrete = self.rng.chance(1, 3);
+            let values = if discrete || self.rng.chance(1, 8) {
+                let n = self.rng.below(4);
+                Some((0..n).map(|_| self.f32v()).collect())
+            } else {
+                None
+            };
+            let map = if self.rng.chance(1, 2) {
+                let n = self.rng.range(1, 3);
+                Some((0..n).map(|_| AxisMapping { input: self.f32v(), output: self.f32v() }).collect())
+            } else {
+                None
+            };
+            d.axes.push(Axis {
+                name: self.attr_s(),
+                tag: self.attr_s(),
+                default: self.f32v(),
+                hidden: self.rng.chance(1, 3),
+                minimum: if discrete && self.rng.chance(2, 3) { None } else { self.opt_f() },
+                maximum: if discrete && self.rng.chance(2, 3) { None } else { self.opt_f() },
+                values,
+                map,
+            });
+        }
+        if bad & 2 != 0 && !d.axes.is_empty() {
+            let i = self.rng.below(d.axes.len() as u64) as usize;
+            d.axes[i].map = Some(vec![]);
+        }
+        let nrules = if bad & (4 | 8 | 16) != 0 && bad & 4 == 0 { self.rng.range(1, 2) } else { *self.rng.pick(&[0, 0, 1, 2, 3]) };
+        d.rules.processing = if self.rng.chance(1, 2) { RuleProcessing::Last } else { RuleProcessing::First };
+        for _ in 0..nrules {
+            let ncs = self.rng.range(1, 2);
+            let nsub = self.rng.range(1, 3);
+            d.rules.rules.push(Rule {
+                name: self.opt_s(),
+                condition_sets: (0..ncs)
+                    .map(|_| {
+                        let n = self.rng.below(3);
+                        ConditionSet { conditions: (0..n).map(|_| Condition { name: self.attr_s(), minimum: self.opt_f(), maximum: self.opt_f() }).collect() }
+                    })
+                    .collect(),
+                substitutions: (0..nsub).map(|_| Substitution { name: self.name(), with: self.name() }).collect(),
+            });
+        }
+        if bad & 4 != 0 {
+            d.rules.rules.clear();
+            d.rules.processing = RuleProcessing::Last;
+        } else if d.rules.rules.is_empty() {
+            d.rules.processing = RuleProcessing::First;
+        }
+        if bad & 8 != 0 && !d.rules.rules.is_empty() {
+            d.rules.rules[0].condition_sets.clear();
+        }
+        if bad & 16 != 0 && !d.rules.rules.is_empty() {
+            let i = d.rules.rules.len() - 1;
+            d.rules.rules[i].substitutions.clear();
+        }
+        let nsrc = if bad & 32 != 0 { 0 } else { self.rng.range(1, 3) };
+        for _ in 0..nsrc {
+            d.sources.push(Source {
+                familyname: self.opt_s(),
+                stylename: self.opt_s(),
+                name: self.opt_s(),
+                filename: self.attr_s(),
+                layer: self.opt_s(),
+                location: self.dims(false),
+            });
+        }
+        if bad & 64 != 0 && !d.sources.is_empty() {
+            let i = self.rng.below(d.sources.len() as u64) as usize;
+            d.sources[i].location.clear();
+        }
+        let ninst = if bad & 128 != 0 { self.rng.range(1, 2) } else { *self.rng.pick(&[0, 1, 1, 2]) };
+        for _ in 0..ninst {
+            let lib = if self.rng.chance(1, 2) { self.dict(1, 3) } else { Dictionary::new() };
+            d.instances.push(Instance {
+                familyname: self.opt_s(),
+                stylename: self.opt_s(),
+                name: self.opt_s(),
+                filename: self.opt_s(),
+                postscriptfontname: self.opt_s(),
+                stylemapfamilyname: self.opt_s(),
+                stylemapstylename: self.opt_s(),
+                location: self.dims(false),
+                lib,
+            });
+        }
+        if bad & 128 != 0 {
+            d.instances[0].location.clear();
+        }
+        d.lib = if self.rng.chance(2, 3) { self.dict(0, 5) } else { Dictionary::new() };
+        d
+    }
+}
+
+// ------------------------------------------------------------------------------------------
+// one case
+// ------------------------------------------------------------------------------------------
+fn run_case(i: usize, d: &DesignSpaceDocument, out: &Path, tmp: &Path) -> J {
+    let p = tmp.join("case.designspace");
+    let _ = std::fs::remove_file(&p);
+    let (forb, norm) = cls_reader(d);
+    let mut rec = json!({
+        "i": i, "doc": doc_to_json(d), "wf": wf(d), "cls_trim": cls_trim(d),
+        "cls_forbidden": forb, "cls_norm": norm, "has_nan": f32_has_nan(d),
+    });
+    let saved = catch(|| d.save(&p));
+    match saved {
+        Err(m) => {
+            rec["save"] = json!("panic");
+            rec["msg"] = json!(m);
+            return rec;
+        }
+        Ok(Err(e)) => {
+            rec["save"] = json!("err");
+            rec["msg"] = json!(format!("{:?}", e));
+            return rec;
+        }
+        Ok(Ok(())) => rec["save"] = json!("ok"),
+    }
+    let bytes = std::fs::read(&p).unwrap_or_default();
+    std::fs::write(out.join(format!("f{}.xml", i)), &bytes).unwrap();
+    match catch(|| DesignSpaceDocument::load(&p)) {
+        Err(m) => {
+            rec["load"] = json!("panic");
+            rec["msg"] = json!(m);
+        }
+        Ok(Err(e)) => {
+            rec["load"] = json!("err");
+            rec["msg"] = json!(format!("{:?}", e).chars().take(200).collect::<String>());
+        }
+        Ok(Ok(d2)) => {
+            let j2 = doc_to_json(&d2);
+            let same = j2 == rec["doc"];
+            rec["rust_eq"] = json!(d2 == *d);
+            if same {
+                rec["load"] = json!("same");
+            } else {
+                rec["load"] = json!("other");
+                rec["loaded"] = j2;
+            }
+        }
+    }
+    rec
+}
+
+/// L1 validation: `Display` then `parse` gives the value back (bit-exact, NaN to NaN), the text
+/// is non-empty and has no white space; the same for f64.
+fn l1_floats(rng: &mut Rng, n: usize) -> (u64, Vec<String>) {
+    let mut bad = vec![];
+    let mut cnt = 0u64;
+    let ok_chars = |s: &str| !s.is_empty() && s.chars().all(|c| c.is_ascii_digit() || ".-einfNa".contains(c));
+    let mut check32 = |x: f32, bad: &mut Vec<String>| {
+        let s = x.to_string();
+        let back: Result<f32, _> = s.parse();
+        let good = match back {
+            Ok(y) => (x.is_nan() && y.is_nan()) || x.to_bits() == y.to_bits(),
+            Err(_) => false,
+        };
+        if !good || !ok_chars(&s) {
+            bad.push(format!("f32 bits {:#x} text {:?}", x.to_bits(), s));
+        }
+    };
+    for x in F32S {
+        check32(*x, &mut bad);
+        cnt += 1;
+    }
+    for e in 0..=255u32 {
+        for m in [0u32, 1, 0x7fffff, 0x400000, 0x2aaaaa] {
+            for s in [0u32, 1] {
+                check32(f32::from_bits((s << 31) | (e << 23) | m), &mut bad);
+                cnt += 1;
+            }
+        }
+    }
+    for _ in 0..n {
+        check32(f32::from_bits(rng.next() as u32), &mut bad);
+        cnt += 1;
+    }
+    let mut check64 = |x: f64, bad: &mut Vec<String>| {
+        let s = x.to_string();
+        let back: Result<f64, _> = s.parse();
+        let good = match back {
+            Ok(y) => (x.is_nan() && y.is_nan()) || x.to_bits() == y.to_bits(),
+            Err(_) => false,
+        };
+        if !good || !ok_chars(&s) {
+            bad.push(format!("f64 bits {:#x} text {:?}", x.to_bits(), s));
+        }
+    };
+    for x in F64S {
+        check64(*x, &mut bad);
+        cnt += 1;
+    }
+    for e in (0..=2047u64).step_by(7) {
+        for m in [0u64, 1, (1 << 52) - 1, 1 << 51] {
+            check64(f64::from_bits((e << 52) | m), &mut bad);
+            check64(f64::from_bits((1 << 63) | (e << 52) | m), &mut bad);
+            cnt += 2;
+        }
+    }
+    for _ in 0..n {
+        check64(f64::from_bits(rng.next()), &mut bad);
+        cnt += 1;
+    }
+    // plist dates (within the years 0000..9999); base64 is validated by the file comparison
+    let mut g = G { magic: std::rc::Rc::new(Magic::load(None)), rng: rng.fork(), wild: 0, nan: false };
+    for _ in 0..(n / 20).max(1000) {
+        let t = g.date();
+        let s = t.to_xml_format();
+        let back = plist::Date::from_xml_format(&s);
+        if back.ok() != Some(t) || s.is_empty() || s.chars().any(is_xml_ws) {
+            bad.push(format!("date text {:?}", s));
+        }
+        cnt += 1;
+    }
+    bad.truncate(10);
+    (cnt, bad)
+}
+
+fn load_dir(dir: &Path) {
+    // files p<i>.xml, outcome per line: i <TAB> same-format JSON of the loaded document | err | panic
+    let mut out = String::new();
+    let mut i = 0usize;
+    loop {
+        let p = dir.join(format!("p{}.xml", i));
+        if !p.exists() {
+            break;
+        }
+        let rec = match catch(|| DesignSpaceDocument::load(&p)) {
+            Err(m) => json!({"i": i, "load": "panic", "msg": m}),
+            Ok(Err(e)) => json!({"i": i, "load": "err", "msg": format!("{:?}", e).chars().take(200).collect::<String>()}),
+            Ok(Ok(d)) => json!({"i": i, "load": "ok", "loaded": doc_to_json(&d)}),
+        };
+        out.push_str(&rec.to_string());
+        out.push('\n');
+        i += 1;
+    }
+    write_file(&dir.join("loaded.jsonl"), &out);
+}
+
+pub fn main(a: &Args) {
+    if let Some(pos) = a.extra.iter().position(|x| x == "--load-dir") {
+        load_dir(Path::new(&a.extra[pos + 1]));
+        return;
+    }
+    let tmp = tempfile::tempdir().expect("tempdir");
+    let mut lines = String::new();
+    if let Some(p) = &a.replay {
+        // JSON lines: each line either a document or {"doc": document, ...}
+        let text = std::fs::read_to_string(p).expect("replay file");
+        let mut i = 0;
+        for line in text.lines().filter(|l| !l.trim().is_empty()) {
+            let j: J = serde_json::from_str(line).expect("replay JSON");
+            let dj = if j.get("doc").is_some() { j["doc"].clone() } else { j };
+            let d = doc_from_json(&dj);
+            let rec = run_case(i, &d, &a.out, tmp.path());
+            lines.push_str(&rec.to_string());
+            lines.push('\n');
+            i += 1;
+        }
+        write_file(&a.out.join("cases.jsonl"), &lines);
+        return;
+    }
+    let n = if a.thorough() { 40_000 } else { 2_400 };
+    let mut master = Rng::new(a.seed ^ 0xC18);
+    let magic = std::rc::Rc::new(Magic::load(a.extra.iter().position(|x| x == "--magic").and_then(|p| a.extra.get(p + 1))));
+    for i in 0..n {
+        let kind = master.below(100);
+        let mut g = G { magic: magic.clone(), rng: master.fork(), wild: if (60..75).contains(&kind) { [1u8, 1, 2, 2, 4, 4, 7, 3][(kind % 8) as usize] } else { 0 }, nan: kind % 10 == 7 };
+        let bad = if kind >= 75 {
+            let mut b = 1u32 << g.rng.below(8);
+            if g.rng.chance(1, 5) {
+                b |= 1u32 << g.rng.below(8);
+            }
+            b
+        } else {
+            0
+        };
+        let d = g.doc(bad);
+        let mut rec = run_case(i, &d, &a.out, tmp.path());
+        rec["kind"] = json!(if kind < 60 { "wf-clean" } else if kind < 75 { "wf-wild" } else { "ill-formed" });
+        lines.push_str(&rec.to_string());
+        lines.push('\n');
+    }
+    // the sweep: every magic string in every string field, every magic number in every number
+    let mut i = n;
+    let numbers: Vec<f32> = magic.n.clone();
+    for (k, m) in magic.s.iter().enumerate() {
+        let d = sweep_doc(m, numbers[k % numbers.len()]);
+        let mut rec = run_case(i, &d, &a.out, tmp.path());
+        rec["kind"] = json!("magic-sweep");
+        lines.push_str(&rec.to_string());
+        lines.push('\n');
+        i += 1;
+    }
+    for (k, x) in numbers.iter().enumerate() {
+        if k < magic.s.len() {
+            continue; // already used above
+        }
+        let d = sweep_doc(&magic.s[k % magic.s.len()], *x);
+        let mut rec = run_case(i, &d, &a.out, tmp.path());
+        rec["kind"] = json!("magic-sweep");
+        lines.push_str(&rec.to_string());
+        lines.push('\n');
+        i += 1;
+    }
+    write_file(&a.out.join("cases.jsonl"), &lines);
+    let (cnt, bad) = l1_floats(&mut master, if a.thorough() { 2_000_000 } else { 200_000 });
+    // observation (outside the property): dates the XML form cannot express make save panic
+    let mut far = DesignSpaceDocument::default();
+    far.lib.insert("d".into(), Value::Date((SystemTime::UNIX_EPOCH + Duration::new(253_402_300_800, 0)).into()));
+    let far_panics = catch(|| far.save(tmp.path().join("far.designspace"))).is_err();
+    let summary = json!({"cases": i, "magic_strings": magic.s.len(), "magic_numbers": magic.n.len(), "l1_float_checks": cnt, "l1_float_failures": bad, "obs_year_10000_date_save_panics": far_panics});
+    write_file(&a.out.join("summary.json"), &summary.to_string());
 }
